@@ -515,3 +515,96 @@ def judge_cmd(case, impl, model):
             viol.append(('precedence', 'command %r is defined as a plugin in %s (doit.cfg > pyproject.toml > extra_config): '
                          'class C_%s expected, doit: %s' % (a, defined, defined[0], {k: impl.get(k) for k in ('pick', 'cls')})))
     return viol, div
+
+
+# ------------------------------------------------------------------------------------------------ (a) task options
+
+TLAYERS = ['cmdline', 'environ', 'secCfg', 'secToml', 'secApi']
+
+
+def gen_tlayers_case(rng):
+    """option `probe` of task `t`: command line after the task name, environment, [task:t] in doit.cfg /
+    tool.doit.tasks.t in pyproject.toml / extra_config['task:t']; [GLOBAL] and DOIT_CONFIG name the key too (noise:
+    task options do not read them)"""
+    ty = rng.choice(['str', 'int'])
+    o = {'name': 'probe', 'type': ty, 'default': {'str': 'declared', 'int': 0}[ty], 'short': 'p', 'long': 'probe',
+         'inverse': '', 'choices': [], 'env_var': 'DOITV_A'}
+    cut = rng.choice([0, 0, 1, 2, 2, 3, 4])
+    present = [l for i, l in enumerate(TLAYERS) if i >= cut and rng.random() < 0.55]
+    typed = {l: (l != 'secCfg' and rng.random() < 0.5) for l in ('secToml', 'secApi')}
+    return dict(BLANK, path='tlayers', opt=o, present=present, typed=typed,
+                noise=[n for n in ('glob', 'dodo') if rng.random() < 0.6],
+                argv=(['--probe', _layer_text(ty, 0, 'cmdline')] if 'cmdline' in present else []))
+
+
+def _tval(case, l):
+    ty = case['opt']['type']
+    i = LAYERS.index(l)
+    return {'val': _layer_typed(ty, i, l)} if case['typed'].get(l) else {'raw': _layer_text(ty, i, l)}
+
+
+def tlayers_request(case):
+    sec = lambda l: [['probe', _tval(case, l)]] if l in case['present'] else []      # noqa: E731
+    return {'model': 'opt', 'op': 'winner', 'opt': case['opt'],
+            'occ': [[False, case['argv'][1]]] if case['argv'] else [],
+            'envv': _layer_text(case['opt']['type'], 1, 'environ') if 'environ' in case['present'] else None,
+            'dodo': [], 'gApi': [], 'gToml': [], 'gCfg': [],
+            'sApi': sec('secApi'), 'sToml': sec('secToml'), 'sCfg': sec('secCfg')}
+
+
+def impl_tlayers(case, workdir):
+    from doit.doit_cmd import DoitMain
+    from doit.cmd_base import ModuleTaskLoader
+    o = case['opt']
+    seen = {}
+
+    def act(probe):
+        seen['v'] = probe
+
+    def task_t():
+        return {'actions': [(act,)], 'params': [optlib.to_cmdoption_dict(o)], 'verbosity': 0}
+    ns = {'task_t': task_t}
+    if 'dodo' in case['noise']:
+        ns['DOIT_CONFIG'] = {'probe': 'dodonoise'}
+    extra = {}
+    if 'glob' in case['noise']:
+        extra['GLOBAL'] = {'probe': 'globnoise'}
+    if 'secApi' in case['present']:
+        extra['task:t'] = optlib.cfg_py([['probe', _tval(case, 'secApi')]])
+    old = os.getcwd()
+    os.chdir(workdir)
+    err = io.StringIO()
+    try:
+        for f in os.listdir(workdir):
+            os.remove(os.path.join(workdir, f))
+        if 'secToml' in case['present']:
+            with open('pyproject.toml', 'w') as f:
+                f.write('[tool.doit.tasks.t]\nprobe = %s\n' % optlib._toml_value(_tval(case, 'secToml')))
+        if 'secCfg' in case['present']:
+            with open('doit.cfg', 'w') as f:
+                f.write('[task:t]\nprobe = %s\n' % _tval(case, 'secCfg')['raw'])
+        env = [['DOITV_A', _layer_text(o['type'], 1, 'environ')]] if 'environ' in case['present'] else []
+        with optlib.environ(env), contextlib.redirect_stderr(err), contextlib.redirect_stdout(io.StringIO()):
+            try:
+                code = DoitMain(task_loader=ModuleTaskLoader(ns), extra_config=extra or None).run(['run', '-r', 'zero', 't'] + list(case['argv']))
+            except BaseException as ex:  # noqa
+                return {'value': {'err': 'crash'}, 'exc': type(ex).__name__, 'res': {'err': 'crash'}}
+    finally:
+        os.chdir(old)
+    if code == 0 and 'v' in seen:
+        return {'value': {'ok': optlib.canon_val(seen['v'])}, 'exit': 0, 'res': {'ok': {'vals': [], 'nd': None, 'pos': []}}}
+    return {'value': {'err': 'exit %s' % code}, 'text': err.getvalue()[-200:], 'exit': code, 'res': {'err': 'crash'}}
+
+
+def judge_tlayers(case, impl, model):
+    viol, div = [], []
+    if impl['value'] != model.get('value'):
+        div.append('M4/tlayers: task option probe with layers %s (noise %s): doit %s, the model (winner %s) %s'
+                   % (case['present'], case['noise'], impl['value'], model.get('winner'), model.get('value')))
+    want = next((l for l in TLAYERS if l in case['present']), 'declared')
+    ty = case['opt']['type']
+    exp = case['opt']['default'] if want == 'declared' else _layer_typed(ty, LAYERS.index(want), want)
+    if model.get('winner') != want or impl['value'] != {'ok': exp}:
+        viol.append(('precedence', 'task option probe, layers %s (+ noise %s in [GLOBAL] / DOIT_CONFIG): %s must win and give %r; '
+                     'doit %s, model winner %s' % (case['present'], case['noise'], want, exp, impl['value'], model.get('winner'))))
+    return viol, div
